@@ -217,7 +217,38 @@ func init() {
 		},
 		"vUF2": func(ex *Exec, st *State, fr *Frame, args []Value, in ssa.Instruction) (Value, *forkReq) {
 			// vUF2(name string, a, b int) int : uninterpreted binary function
-			return ex.st.UF("uf_"+mustStr(args[0], "vUF2"), 64, args[1].(*smt.Term), args[2].(*smt.Term)), nil
+			name := mustStr(args[0], "vUF2")
+			a, b := args[1].(*smt.Term), args[2].(*smt.Term)
+			if a.IsConst() && b.IsConst() {
+				// concrete operands: the operation itself
+				switch name {
+				case "mul":
+					return ex.st.Mul(a, b), nil
+				case "div":
+					if b.Val != 0 {
+						return ex.st.Bin(smt.OpSDiv, a, b), nil
+					}
+				case "rem":
+					if b.Val != 0 {
+						return ex.st.Bin(smt.OpSRem, a, b), nil
+					}
+				}
+			}
+			if name == "mul" {
+				if a.IsConst() || b.IsConst() {
+					return ex.st.Mul(a, b), nil
+				}
+				if a.ID > b.ID {
+					a, b = b, a
+				}
+			} else if b.IsConst() && b.Val != 0 {
+				op := smt.OpSDiv
+				if name == "rem" {
+					op = smt.OpSRem
+				}
+				return ex.st.Bin(op, a, b), nil
+			}
+			return ex.st.UF("uf_"+name, 64, a, b), nil
 		},
 		"vTrace": func(ex *Exec, st *State, fr *Frame, args []Value, in ssa.Instruction) (Value, *forkReq) {
 			st.Trace = append(st.Trace, mustStr(args[0], "vTrace"))
